@@ -134,7 +134,7 @@ Section GateProofs.
     login <> [] -> (user0 = [] \/ is_safe_path_component user0 = false) ->
     let r := after_login cfg env m bp path ext login user0 in
     r_effects r = [] /\
-    (r_final r = FTooLarge \/ r_final r = FError \/
+    (r_final r = FBadRequest \/ r_final r = FTooLarge \/ r_final r = FError \/
      r_final r = (if ext then FForbidden else FUnauthorized)) /\
     (clen_ok cfg env -> r_final r = (if ext then FForbidden else FUnauthorized)).
   Proof.
@@ -146,9 +146,10 @@ Section GateProofs.
     unfold Gate.after_login, clen_ok. rewrite Hu1. cbn [nonempty]. rewrite Hl. cbn [negb orb].
     destruct ext; cbn [negb andb];
       destruct (c_internal cfg); [destruct (e_clen env) as [|z] | | destruct (e_clen env) as [|z] | ];
+      try destruct (z <? 0)%Z eqn:Ez0;
       try destruct (negb (z =? 0)%Z && (0 <? c_max_len cfg)%Z && (c_max_len cfg <? z)%Z) eqn:Ez;
-      cbn; (split; [reflexivity|]); (split; [auto|]);
-      intros [Hc|[z' [Hc1 Hc2]]]; try discriminate; try reflexivity;
+      cbn; (split; [reflexivity|]); (split; [auto 6|]);
+      intros [Hc|[z' [Hc1 [Hc2 Hc3]]]]; try discriminate; try reflexivity;
       try (inversion Hc1; subst; congruence).
   Qed.
 
@@ -275,7 +276,7 @@ Section GateProofs.
     cbn [with_effects r_effects r_final]. rewrite He. cbn [app].
     split; [intros e [<-|[]]; split; reflexivity|].
     split.
-    - destruct Hf as [Hf|[Hf|Hf]]; rewrite Hf; [left; reflexivity|right; left; reflexivity|].
+    - destruct Hf as [Hf|[Hf|[Hf|Hf]]]; rewrite Hf; [left; reflexivity|left; reflexivity|right; left; reflexivity|].
       destruct ext; [right; right; right|right; right; left]; split; reflexivity.
     - intros _ Hcl. split; [reflexivity|]. apply Hok; exact Hcl.
   Qed.
